@@ -43,10 +43,14 @@ pub fn generate(g: &mut Gen, thorough: bool) {
         for kind in ["cassinis", "jeffreys", "grs67", "grs80", "welmec"] {
             g.push(format!("S_C14\tgrav\t{ellps}\t{kind}\t{}", data_of(&deg)), "oracle-gravity-ellipsoid", true);
         }
-        let gd: Vec<[f64; 4]> = (0..6).map(|_| [g.rng.uniform(-80.0, 80.0), g.rng.uniform(-170.0, 170.0), g.rng.uniform(-180.0, 180.0), g.rng.uniform(10.0, 1.5e7)]).collect();
+        // (azimuths in either convention: ]-180, 180] and [0, 360[, and a turn beyond)
+        let gd: Vec<[f64; 4]> = (0..8).map(|i| [g.rng.uniform(-80.0, 80.0), g.rng.uniform(-170.0, 170.0), if i < 3 { g.rng.uniform(180.0, 360.0) } else { g.rng.uniform(-360.0, 400.0) }, g.rng.uniform(10.0, 1.5e7)]).collect();
         g.push(format!("S_C14\tgeod\t{ellps}\tF\t{}", data_of(&gd)), "oracle-geodesic-ellipsoid", true);
         let gi: Vec<[f64; 4]> = (0..6).map(|_| [g.rng.uniform(-70.0, 70.0), g.rng.uniform(-170.0, 170.0), g.rng.uniform(-70.0, 70.0), g.rng.uniform(-170.0, 170.0)]).collect();
         g.push(format!("S_C14\tgeod\t{ellps}\tI\t{}", data_of(&gi)), "oracle-geodesic-ellipsoid", true);
+        g.push(op_line("default", &[], &[], &format!("geodesic ellps={ellps}"), "apply", "F", &data_of(&gd)), "model-geodesic", true);
+        g.push(op_line("default", &[], &[], &format!("geodesic ellps={ellps}"), "apply", "I", &data_of(&gi)), "model-geodesic", true);
+        g.push(op_line("default", &[], &[], &format!("geodesic reversible ellps={ellps}"), "apply", "F", &data_of(&gd)), "model-geodesic", true);
         // the series against closed forms and quadrature
         g.push(format!("S_C14\tseries\t{ellps}\t\t{}", data_of(&geo)), "oracle-series-closed-forms", true);
         g.push(format!("S_C14\tseries\t{ellps}\trectifying\t{}", data_of(&geo)), "oracle-series-rectifying", true);
@@ -85,9 +89,18 @@ pub fn generate(g: &mut Gen, thorough: bool) {
     for (a, b) in [
         ("adapt from=enuf_deg", "unitconvert xy_in=deg xy_out=rad"), ("adapt to=enuf_deg", "unitconvert xy_in=rad xy_out=deg"),
         ("adapt from=enuf_gon", "unitconvert xy_in=grad xy_out=rad"), ("adapt from=neuf to=enuf", "axisswap order=2,1"), ("adapt from=enuf to=neuf", "axisswap order=2,1"),
+        // the same with the `inv` modifier on either or both
+        ("adapt inv from=enuf_deg", "unitconvert inv xy_in=deg xy_out=rad"), ("adapt to=enuf_deg", "unitconvert inv xy_in=deg xy_out=rad"), ("adapt inv to=enuf_gon", "unitconvert xy_in=grad xy_out=rad"),
+        ("adapt from=enuf_deg", "unitconvert xy_out=deg xy_in=rad inv"), ("adapt inv from=neuf to=enuf", "axisswap inv order=2,1"), ("adapt from=wnuf inv", "axisswap order=-1,2 inv"),
+        ("unitconvert inv xy_in=deg xy_out=rad z_in=ft z_out=m", "unitconvert xy_in=rad xy_out=deg z_in=m z_out=ft"), ("unitconvert inv z_in=km z_out=ft", "unitconvert z_in=ft z_out=km"),
     ] {
         let pts: Vec<[f64; 4]> = (0..8).map(|_| [g.rng.uniform(-180.0, 180.0), g.rng.uniform(-90.0, 90.0), g.rng.uniform(-9.0, 9.0), g.rng.uniform(-9.0, 9.0)]).collect();
         g.push(format!("S_C14\tsame\t{}\t{}\t{}", escape(a), escape(b), data_of(&pts)), "oracle-adapt-unitconvert", true);
+        for def in [a, b] {
+            for dir in ["F", "I"] {
+                g.push(op_line("default", &[], &[], def, "apply", dir, &data_of(&pts)), "model-adapt-unitconvert", true);
+            }
+        }
     }
     // Minimal and Plain on every definition the library's own tests use (no grids, no resources)
     for def in c09::corpus() {
